@@ -21,7 +21,7 @@ from .gen.formulas import Config, FormulaGen
 TRUSTED = [
     "Coq 8.16.1 kernel (vm_compute only in the closed refutation witnesses and in the case files); core/Sem.v is the specification of truth under an interpretation",
     "hand models models/Cnf.v (CNFizer.walk_*, convert, convert_as_formula, PolarityCNFizer, FormulaManager.new_fresh_symbol) and models/Ackermann.v, tied to rewritings.py by this run's correspondence (exact fresh names, clause sets as sets of sets; Ackermann result up to And/Or order and orientation of = / <->)",
-    "Section hypotheses of proofs/Cnf_proofs.v: the simplifier applied by Not(a).simplify() to a theory atom returns a term with the same truth value under every interpretation (property C01's subject) and, for the shape theorem, an atom, a negated atom or a Boolean constant; checked on every generated case by the shape/search oracle on the implementation's own output",
+    "C11_cnf_*/C11_pol_* carry the hypothesis simp_sound (the simplifier applied by Not(a).simplify() to a theory atom preserves the truth value: C01's subject) and, for the shape theorems, shape_hyp (it returns an atom, a negated atom or a Boolean constant; checked on every generated case by the shape oracle on the implementation's own output); the C11_*_simplifier corollaries discharge simp_sound with C01's theorem (proofs/CnfSimp_proofs.v) for the simplifier model on well-typed division-free Bool terms of C01's fragment and well-sorted interpretations",
     "the memoising DAG walker computes the same function as the tree recursion of the models (core/DagWalk.v, walk_refines)",
     "standard-library axioms pulled in by core/Sem.v (classical reals, excluded middle via ClassicalDescription, functional extensionality)",
 ]
@@ -29,7 +29,7 @@ ASSUMPTIONS = [
     "quantifier-free formulas (both converters raise NotImplementedError on a quantifier; the model returns None)",
     "theorems are conditional on the conversion returning (model result Some _); cnf_total shows it does for every formula whose connectives have Boolean-structure/atom children",
     "cnf_sound / pol_sound are full theorems for the repaired clean-up (pysmt 7e10806: FALSE_CNF when a clause is emptied); the former witnesses And(a, FALSE), And(FALSE, FALSE), Or(FALSE, FALSE) are directed regression cases (Coq: regression_emptied; harness: first batch)",
-    "Ackermannization: models/Ackermann.v is the code repaired by build/fixes/C11_ackermann_nested.diff; ack_shape (no application left, every formula) is a theorem; completeness and soundness are checked by correspondence and by the refeval search oracle (test level, not proof)",
+    "Ackermannization: models/Ackermann.v is the code repaired by build/fixes/C11_ackermann_nested.diff; ack_shape, ack_complete (f quantifier-free, well-typed, in the C01 fragment okt; I wf_interp; manager knows the symbols of f) and ack_sound (f quantifier-free, J wf_interp) are theorems, nested applications included",
     "FNode.simplify()/get_type() use the GLOBAL environment, so the check makes the fresh Environment of each batch the global one",
 ]
 RULE = ("cases: harness/gen/formulas.py restricted to quantifier-free (theory atoms of every theory, Boolean structure nested in atoms, sharing) "
